@@ -173,6 +173,11 @@ def nuclide(lib, label, mask, w, v):
         n.pmatrxMetadata["numLegendre"] = w[2]
         n.neutronHeating = np.array([v[2], v[2] + 1.0])
         n.gammaHeating = np.array([v[2] + 2.0, v[2]])
+        # every production datum a PMATRX nuclide can carry (isotropic and P1 gamma production, damage, higher orders)
+        n.neutronDamage = np.array([v[2] + 3.0, v[2]])
+        n.isotropicProduction = np.array([v[2] + 4.0, v[2]])
+        n.linearAnisotropicProduction = np.array([v[2] + 5.0, v[2]])
+        n.nOrderProductionMatrix = {2: np.array([v[2] + 6.0, v[2]])}
     return n
 
 
@@ -185,7 +190,8 @@ def observe(n):
     return [n.isotxsMetadata["amass"], n.gamisoMetadata["amass"], n.pmatrxMetadata["numLegendre"],
             len(n.isotxsMetadata), len(n.gamisoMetadata), len(n.pmatrxMetadata),
             first(n.micros.fission), first(n.micros.nGamma), first(n.gammaXS.total), first(n.gammaXS.fission),
-            first(n.neutronHeating), first(n.gammaHeating), first(n.neutronDamage)]
+            first(n.neutronHeating), first(n.gammaHeating), first(n.neutronDamage),
+            first(n.isotropicProduction), first(n.linearAnisotropicProduction), first(n.nOrderProductionMatrix.get(2))]
 
 
 def same_content(o1, o2):
@@ -288,7 +294,7 @@ def observe_library(lib):
             o = observe(lib[lab])
             out.extend(o[:3] + o[6:])  # metadata values and data of the nuclide
         else:
-            out.extend([None] * 10)
+            out.extend([None] * 13)  # = len(o[:3] + o[6:]) of observe()
     return out, lib.nuclideLabels
 
 
